@@ -1,10 +1,229 @@
-(* C21  Instant-based procedures apply at their instant or end the link.  Statements only; proofs in LL/LLProofsC21.v. *)
+(* C21  Instant-based procedures apply at their instant or end the link.  Statements only; proofs in LL/LLProofsC21.v.
+   The model (LL/LLModel.v) is the code AFTER the repair branch fix/C21-instant-checks; the comparisons as they were
+   written before are LLSpecC21.old_update_check / old_map_check / old_phy_check (refuted below). *)
 From Coq Require Import NArith List Bool.
-From BT Require Import Base.ListX LL.LLModel LL.LLSpec LL.LLSpecC21 LL.LLProofs LL.LLProofsC21.
+From BT Require Import Base.ListX LL.LLModel LL.LLSpec LL.LLSpecC21 LL.LLProofsC21.
+From BT Require gen.GenLL ChanMap.ChanMapModel.
 Import ListNotations.
 Local Open Scope N_scope.
 
+(* ------------------------------------------------------------------------------------------ 1. the comparison *)
+(* instant_passed() is the Core's rule, for every 16 bit instant and every 16 bit counter (wrap included):
+   passed  <->  ( instant - counter ) mod 65536  is 0 or >= 32767 *)
 Theorem C21_instant_check_is_the_core_rule :
   forall inst evc, inst < 65536 -> evc < 65536 -> instant_passed inst evc = negb (reachable inst evc).
 Proof. exact instant_passed_spec. Qed.
 Print Assumptions C21_instant_check_is_the_core_rule.
+
+Theorem C21_reachable_is_one_of_the_next_32766_events :
+  forall inst evc, inst < 65536 -> evc < 65536 ->
+    (reachable inst evc = true <-> exists j, 1 <= j <= 32766 /\ inst = (evc + j) mod 65536).
+Proof. exact reachable_iff. Qed.
+Print Assumptions C21_reachable_is_one_of_the_next_32766_events.
+
+(* the comparisons of the unrepaired code are not that rule (witnesses: instant = counter; PHY: instant = counter - 1) *)
+Theorem C21_old_update_check_refuted :
+  ~ (forall inst evc, inst < 65536 -> evc < 65536 -> old_update_check inst evc = negb (reachable inst evc)).
+Proof. exact old_update_check_refuted. Qed.
+Theorem C21_old_map_check_refuted :
+  ~ (forall inst evc, inst < 65536 -> evc < 65536 -> old_map_check inst evc = negb (reachable inst evc)).
+Proof. exact old_map_check_refuted. Qed.
+Theorem C21_old_phy_check_refuted :
+  ~ (forall inst evc, inst < 65536 -> evc < 65536 -> old_phy_check inst evc = negb (reachable inst evc)).
+Proof. exact old_phy_check_refuted. Qed.
+
+(* ------------------------------------------------------------------------------------------ 2. reception *)
+(* Every LL_CONNECTION_UPDATE_IND / LL_CHANNEL_MAP_IND / LL_PHY_UPDATE_IND (specification level classification
+   [classify21], any payload, any state) is either refused - the link is to be dropped with 0x28, nothing transmitted -
+   or stored unchanged with its instant; [refused] is the comparison. *)
+Theorem C21_indication_is_refused_with_0x28_or_deferred :
+  forall c s body pr inst,
+    classify21 (c_phy c) (3, body) = Some (pr, inst) ->
+    let r := handle_ll_control c s body in
+    (refused pr inst (evc (cs s)) = true /\ snd r = DoDisconnect /\ disc_reason (fst (fst r)) = 40 /\ snd (fst r) = [])
+    \/ (refused pr inst (evc (cs s)) = false /\ snd r = GoAhead /\ deferred (fst (fst r)) = Some body
+        /\ def_instant (fst (fst r)) = inst /\ snd (fst r) = []).
+Proof. exact accept_spec. Qed.
+Print Assumptions C21_indication_is_refused_with_0x28_or_deferred.
+
+(* an instant that can no longer be met ends the link with "instant passed", for all three procedures *)
+Theorem C21_unreachable_instant_ends_the_link :
+  forall c s body pr inst,
+    classify21 (c_phy c) (3, body) = Some (pr, inst) -> bytes_ok body -> evc (cs s) < 65536 ->
+    reachable inst (evc (cs s)) = false ->
+    snd (handle_ll_control c s body) = DoDisconnect /\ disc_reason (fst (fst (handle_ll_control c s body))) = 40.
+Proof. exact unreachable_ends_the_link. Qed.
+Print Assumptions C21_unreachable_instant_ends_the_link.
+
+(* The converse - every reachable instant is deferred - is FALSE of the code: a connection update that names the NEXT
+   connection event is refused (kept by the repair: the repository's test connection_update_request_invalid_instance
+   demands it). Known finding C21-update-next-event-refused. *)
+Definition C21_reachable_instant_is_deferred_full : Prop := reachable_is_deferred_full.
+Theorem C21_reachable_instant_is_deferred_refuted : ~ C21_reachable_instant_is_deferred_full.
+Proof. exact reachable_is_deferred_refuted. Qed.
+Print Assumptions C21_reachable_instant_is_deferred_refuted.
+(* what holds: everything but that one distance of that one procedure *)
+Theorem C21_reachable_instant_is_deferred_partial :
+  forall c s body pr inst,
+    classify21 (c_phy c) (3, body) = Some (pr, inst) -> bytes_ok body -> evc (cs s) < 65536 ->
+    reachable inst (evc (cs s)) = true ->
+    match pr with PUpdate _ _ _ _ _ => inst <> evc (cs s) + 1 | _ => True end ->
+    snd (handle_ll_control c s body) = GoAhead /\ deferred (fst (fst (handle_ll_control c s body))) = Some body
+    /\ def_instant (fst (fst (handle_ll_control c s body))) = inst.
+Proof. exact reachable_is_deferred_partial. Qed.
+Print Assumptions C21_reachable_instant_is_deferred_partial.
+
+(* while a procedure waits, nothing of the receive queue is looked at (the PDUs stay queued) ... *)
+Theorem C21_received_data_waits_while_a_procedure_waits :
+  forall c fuel s b, deferred s = Some b -> handle_received_data (S fuel) c s = (s, [], GoAhead).
+Proof. exact hrd_blocked. Qed.
+
+(* ------------------------------------------------------------------------------------------ 3. planning and the instant *)
+(* peripheral latency never skips the instant: the next event is planned l events ahead, 1 <= l <= latency + 1 and
+   l <= distance of the waiting instant - any latency <= 499, any event flags, any counter *)
+Theorem C21_planning_never_passes_the_instant :
+  forall c s evts s',
+    plan_next_connection_event c s evts = Some s' -> evc (cs s) < 65536 -> latency (tm s) <= 499 ->
+    exists l t ll,
+      s' = set_cs s (mk_cstate ((ch_idx (cs s) + l) mod 37) (u16 (evc (cs s) + l)) t ll)
+      /\ 1 <= l <= latency (tm s) + 1
+      /\ (disarmable c = true -> ll = l) /\ (disarmable c = false -> ll = last_lat (cs s))
+      /\ (forall b, deferred s = Some b -> def_instant s < 65536 -> 1 <= dist s -> l <= dist s).
+Proof. exact plan_spec. Qed.
+Print Assumptions C21_planning_never_passes_the_instant.
+
+(* before the instant nothing is applied: the event is handed to the radio with the channel map, interval in force *)
+Theorem C21_nothing_applied_before_the_instant :
+  forall c s s' it,
+    pending_then_setup c s = Some (s', it) -> (deferred s = None \/ def_instant s <> evc (cs s)) ->
+    s' = set_pending_event s true /\ exists ws we, it = [ICe (data_channel s) ws we (interval (tm s))].
+Proof. exact pending_not_yet. Qed.
+
+(* when the planned counter equals the instant the procedure is applied - the values of the stored PDU - BEFORE the event
+   is handed to the radio ( ICe with the channel of the new map / the new interval; IPhy before it ), or the link ends
+   (connection update with parameters check_timing refuses) *)
+Theorem C21_applied_at_the_instant :
+  forall c s b s' it,
+    pending_then_setup c s = Some (s', it) -> deferred s = Some b -> def_instant s = evc (cs s) ->
+    (exists sx, s' = fst (force_disconnect c sx) /\ cs sx = cs (after_apply c s) /\ rxq (bf sx) = rxq (bf s))
+    \/ (deferred s' = None /\ cs s' = cs (after_apply c s) /\ rxq (bf s') = rxq (bf s)
+        /\ (exists ws we, In (ICe (data_channel s') ws we (interval (tm s'))) it)
+        /\ (   (byte b 0 = GenLL.LL_CHANNEL_MAP_REQ /\ applied_map s s' b /\ forall x y, ~ In (IPhy x y) it)
+            \/ (byte b 0 <> GenLL.LL_CHANNEL_MAP_REQ /\ byte b 0 = GenLL.LL_CONNECTION_UPDATE_IND /\ applied_update s s' b
+                /\ snd (parse_update b) = Some true /\ forall x y, ~ In (IPhy x y) it)
+            \/ (byte b 0 <> GenLL.LL_CHANNEL_MAP_REQ /\ byte b 0 <> GenLL.LL_CONNECTION_UPDATE_IND
+                /\ tm s' = tm s /\ chan s' = chan s /\ st s' = st s /\ In (IPhy (byte b 1) (byte b 2)) it))).
+Proof. exact pending_at_instant. Qed.
+Print Assumptions C21_applied_at_the_instant.
+
+(* ------------------------------------------------------------------------------------------ 4. whole operations *)
+(* The invariant, over EVERY sequence of operations from power-up (advertising, connect requests, connection events with
+   any PDUs, missed events, API calls, blocked transmit buffers, cancelations), any configuration:
+   nothing waits outside a connection; a waiting procedure has a 16 bit instant at distance 1 .. 32766 of the planned
+   event's counter, and the planned event can not be pulled back behind that range; latency <= 499 *)
+Theorem C21_invariant_over_all_histories :
+  forall c ops, Forall op_ok ops -> Inv c (lfinal c (linit c) ops).
+Proof. intros c ops H. exact (invariant_all_traces c ops (linit c) (Inv_init c) H). Qed.
+Print Assumptions C21_invariant_over_all_histories.
+
+(* end_event() with a waiting procedure [b]: the link ends, or the procedure still waits with a strictly smaller distance
+   (same parameters, same channel map, nothing of the receive queue touched, no PHY change), or it is applied and the
+   planned counter IS the instant. [outcome] spells this out; the state it refers to is the one after the prologue of
+   end_event (state_ = connected, transmit window cleared). *)
+Theorem C21_end_event_with_a_waiting_procedure :
+  forall c s evts s' it b,
+    Inv c s -> in_connection s = true -> deferred s = Some b -> do_end_event c s evts = Some (s', it) ->
+    exists it', outcome c b (end_event_prologue c s) s' it'
+                /\ (forall x, In x it' -> In x it)
+                /\ (forall x y, In (IPhy x y) it -> st s' = Advertising \/ In (IPhy x y) it').
+Proof. exact end_event_pending. Qed.
+Print Assumptions C21_end_event_with_a_waiting_procedure.
+
+(* timeout(): the same when the event is lost - an instant on a missed event is applied all the same *)
+Theorem C21_missed_event_with_a_waiting_procedure :
+  forall c s s' it b,
+    Inv c s -> in_connection s = true -> deferred s = Some b -> do_timeout c s = Some (s', it) ->
+    exists it', outcome c b s s' it' /\ (forall x, In x it' -> In x it)
+                /\ (forall x y, In (IPhy x y) it -> st s' = Advertising \/ In (IPhy x y) it').
+Proof. exact timeout_pending. Qed.
+Print Assumptions C21_missed_event_with_a_waiting_procedure.
+
+(* A waiting procedure is resolved - applied with the planned counter equal to its instant, or the link is gone - after
+   at most as many connection events as the instant is away, whatever is received, whichever events are lost, whatever
+   the latency. (Reception is blocked no longer than that: C21_received_data_waits_while_a_procedure_waits is the only
+   block, and [deferred = None] lifts it.) *)
+Theorem C21_resolved_within_the_distance_of_the_instant :
+  forall c ops s b,
+    Inv c s -> in_connection s = true -> deferred s = Some b -> events_run c s ops -> dist s <= N.of_nat (length ops) ->
+    exists pre post, ops = pre ++ post /\ N.of_nat (length pre) <= dist s /\
+      (in_connection (lfinal c s pre) = false
+       \/ (deferred (lfinal c s pre) = None /\ evc (cs (lfinal c s pre)) = def_instant s)).
+Proof. exact resolved_within_distance. Qed.
+Print Assumptions C21_resolved_within_the_distance_of_the_instant.
+
+(* after the application try_event_cancelation() can not move the planned event (the instant) back *)
+Theorem C21_no_pull_back_after_the_application :
+  forall c s bb us, (disarmable c = true -> last_lat (cs s) = 1) -> do_cancel c s bb us = Some (s, []).
+Proof. exact cancel_after_applied. Qed.
+Print Assumptions C21_no_pull_back_after_the_application.
+
+(* ------------------------------------------------------------------------------------------ 5. the monitor *)
+(* "the specification monitor accepts every trace of the model" is false because of the known finding ... *)
+Definition C21_monitor_accepts_all_full : Prop := monitor_accepts_all_full.
+Theorem C21_monitor_accepts_all_refuted : ~ C21_monitor_accepts_all_full.
+Proof. exact monitor_accepts_all_refuted. Qed.
+Print Assumptions C21_monitor_accepts_all_refuted.
+Theorem C21_update_for_the_next_event_is_refused : verdict21 (trace21 witness_next_event) = Bad 7.
+Proof. exact witness_next_event_rejected. Qed.
+(* ... and for the rest (no connection update naming the next event, no disconnect(), no LLID 1 fragment, no encryption,
+   update parameters in the Core ranges, channel maps with >= 2 channels) it is NOT PROVED, only tested on every run
+   against model and implementation: *)
+Definition C21_monitor_accepts_rest_full : Prop :=
+  forall c ops, Forall op_ok ops ->
+    forall k, mrun21 c (minit21 c) (lrun c (linit c) ops) = Bad k -> (k = 7 \/ 8 <= k)%nat.
+(* ( 7 = the known finding; 8.. = fault / counter / channel / shape, not clauses of this property ) *)
+
+(* ------------------------------------------------------------------------------------------ examples: non-vacuity *)
+(* the hypotheses are met and the monitor accepts: all three procedures, traffic while they wait, instants on missed events *)
+Example C21_session_accepted : verdict21 (trace21 session21) = Ok.
+Proof. exact session21_accepted. Qed.
+Example C21_session_meets_the_hypotheses :
+  Forall op_ok session21 /\ in_connection (lfinal cfg21 (linit cfg21) session21) = true.
+Proof. exact session21_hypotheses. Qed.
+(* a state in which a procedure waits, as the theorems of section 4 assume *)
+Example C21_waiting_state_exists :
+  let s := lfinal cfg21 (linit cfg21) (pre21 ++ [Ev 0 [map_pdu 9]]) in
+  deferred s = Some (snd (map_pdu 9)) /\ dist s = 6 /\ in_connection s = true.
+Proof. vm_compute. repeat split; reflexivity. Qed.
+(* the monitor is not trivially accepting: one rejected trace per clause (the behaviour of the unrepaired code among them) *)
+Example C21_monitor_rejects_accepted_passed_instant :
+  verdict21 (observed_as (pre21 ++ [Ev 0 [upd_pdu 40 2]; Ev 0 []]) (pre21 ++ [Ev 0 [upd_pdu 40 7]; Ev 0 []])) = Bad 3.
+Proof. exact monitor_rejects_accepted_passed_instant. Qed.
+Example C21_monitor_rejects_refused_reachable_instant :
+  verdict21 (observed_as (pre21 ++ [Ev 0 [map_pdu 4]; Ev 0 []]) (pre21 ++ [Ev 0 [map_pdu 2]; Ev 0 []])) = Bad 7.
+Proof. exact monitor_rejects_refused_reachable_instant. Qed.
+Example C21_monitor_rejects_late_application :
+  verdict21 (observed_as (pre21 ++ [Ev 0 [map_pdu 4]; Ev 0 []; Ev 0 []; Ev 0 []]) (pre21 ++ [Ev 0 [map_pdu 5]; Ev 0 []; Ev 0 []; Ev 0 []])) = Bad 4.
+Proof. exact monitor_rejects_late_application. Qed.
+Example C21_monitor_rejects_early_application :
+  verdict21 (observed_as (pre21 ++ [Ev 0 [phy_pdu 5]; Ev 0 []; Ev 0 []; Ev 0 []]) (pre21 ++ [Ev 0 [phy_pdu 4]; Ev 0 []; Ev 0 []; Ev 0 []])) = Bad 1.
+Proof. exact monitor_rejects_early_application. Qed.
+Example C21_monitor_rejects_other_parameters :
+  verdict21 (observed_as (pre21 ++ [Ev 0 [upd_pdu 80 4]; Ev 0 []; Ev 0 []]) (pre21 ++ [Ev 0 [upd_pdu 40 4]; Ev 0 []; Ev 0 []])) = Bad 2.
+Proof. exact monitor_rejects_other_parameters. Qed.
+Example C21_monitor_rejects_skipped_instant :
+  verdict21 (observed_as [Run; connect21 3; Ev 0 []; Ev 2 [map_pdu 7]; Ev 0 []; Ev 0 []] [Run; connect21 3; Ev 0 []; Ev 2 [ping_pdu]; Ev 0 []; Ev 0 []]) = Bad 6.
+Proof. exact monitor_rejects_skipped_instant. Qed.
+Example C21_monitor_rejects_unanswered_request :
+  verdict21 (observed_as (pre21 ++ [Ev 0 [att_pdu]; Ev 0 []]) (pre21 ++ [Ev 0 []; Ev 0 []])) = Bad 5.
+Proof. exact monitor_rejects_unanswered_request. Qed.
+(* latency 3: the skip lands on the instant, the map is applied, try_event_cancelation() leaves the event where it is *)
+Example C21_cancelation_after_the_application :
+  verdict21 (trace21 [Run; connect21 3; Ev 0 []; Ev 2 [map_pdu 8]; Ev 0 []; Cancel true 100; St; Ev 0 []]) = Ok
+  /\ nth 5 (map snd (trace21 [Run; connect21 3; Ev 0 []; Ev 2 [map_pdu 8]; Ev 0 []; Cancel true 100; St; Ev 0 []])) OPre = OItems [].
+Proof. exact cancel_after_application_example. Qed.
+(* constants read from the current sources *)
+Example C21_constants :
+  GenLL.LL_CONNECTION_UPDATE_IND = 0 /\ GenLL.LL_CHANNEL_MAP_REQ = 1 /\ GenLL.LL_PHY_UPDATE_IND = 24
+  /\ GenLL.connection_instant_passed = 40.
+Proof. repeat split; reflexivity. Qed.
